@@ -70,9 +70,11 @@ def build(s):
     return isagen.dump(cfg), src, addr, opw, w
 
 
-def evaluate(e):
+def evaluate(e, _second=None):
     s = e['s']
     isa, src, addr, off, w = build(s)
+    if _second:
+        isa, src = _second
     nbytes = (off + w + (8 if (s['kind'] == 'rel' and s['size'] == 3) else 0) + 7) // 8
     case = {'config': isa, 'files': {'main.asm': src}, 'start': addr, 'end': addr + nbytes - 1}
     obs = runner.run_case(case)
@@ -89,6 +91,17 @@ def evaluate(e):
         want = e['f'] & ((1 << w) - 1)
         if field != want:
             return {'m': f'field carries {field}, specification {want} (image {obs["image"].hex()})', 'case': case}
+    if s['kind'] in ('rel', 'slice') and addr >= 3 and not _second:
+        # the same statement as the second step of a macro (after a 3-byte step): its own address is still addr
+        import yaml
+        cfgd = yaml.safe_load(isa)
+        cfgd['instructions']['pad3'] = {'bytecode': {'value': 0xEEEEEE, 'size': 24}}
+        stmt = src.split('\n')[1]
+        cfgd['macros'] = {'wrapm': [{'instructions': ['pad3', stmt, 'pad3']}]}
+        r2 = evaluate(e, _second=(isagen.dump(cfgd), f'.org {addr - 3}\nwrapm\n'))
+        if r2 is not None:
+            r2['m'] = 'as the second step of a macro: ' + r2['m']
+        return r2
     return None
 
 
@@ -99,7 +112,7 @@ def run(chk):
                 'x values on and next to each bound; relative offsets from the instruction address and from its last byte '
                 '(instruction sizes 2 and 3, with/without min/max, 4- and 8-bit fields, field-range boundaries); numeric '
                 'enumerations; zone membership for address / valid_address operands at start-1, start, end, end+1 under a '
-                'predefined zone and a redefined GLOBAL; sliced addresses on both sides of page boundaries. TLC checks '
+                'predefined zone and a redefined GLOBAL; sliced addresses on both sides of page boundaries (relative and sliced operands also as the second step of a macro, where the statement has an address of its own). TLC checks '
                 'RejectIffInadmissible (ordered checks = declarative admissible set), WidthRange, FieldFits. For every '
                 'scenario an ISA definition and a statement are generated and assembled: accept/reject must agree and the '
                 "operand's field, extracted from the image, must carry the specified value. Widths 10..64 are covered by seeded boundary-biased records validated by spec/Trace_Pack.tla on bit strings. Non-trivial = every scenario "
